@@ -270,7 +270,11 @@ func registerProm(p *Program) {
 				d = tc.Const(64, 1)
 			default:
 				t, u := e.floatBaseInt(ev.f)
-				if unit == "ns" && u != "ns" || unit == "int" && u != "int" && u != "const" {
+				switch {
+				case unit == "ns" && (u == "int" || u == "const"):
+					// a value fed in whole seconds, read back in nanoseconds
+					t = tc.Bin(OMul, t, tc.Const(64, 1_000_000_000))
+				case unit == "ns" && u != "ns" || unit == "int" && u != "int" && u != "const":
 					panic(unsupported{"counter unit mismatch: " + u + " vs " + unit})
 				}
 				d = t
